@@ -633,3 +633,19 @@ func VsymC09BlobWhole() {
 	vr.Assert(globals > 1 || globalSkip || err == nil, "otherwise accepted")
 	vr.Reach("done")
 }
+
+// VsymC09StoreNames: concrete store names outside the symbolic alphabet - letters and digits of other scripts,
+// control characters, path and shell punctuation - none of which is a plain file name.
+func VsymC09StoreNames() {
+	names := []string{"store", "störe", "存储", "store٣", "сtore", "a\x00b", "a b", "a/b", "a\\b", "a[b", "a^b", "a`b", "a]b", "a b", "é", "ś", "a\nb", "-", "_", "..a", "a..", "\xff\xfe", "a:b"}
+	ok := []bool{true, false, false, false, false, false, false, false, false, false, false, false, false, false, false, false, false, true, true, true, true, false, false}
+	k := vr.Choice("name", len(names))
+	typ := []string{"ca", "signingAuthority", "tsa"}[vr.Choice("type", 3)]
+	err := validateTrustStore("p", []string{typ + ":" + names[k]})
+	vr.Assert((err == nil) == ok[k], "a trust store name is accepted iff it consists of ASCII letters, digits, '_', '.', '-' only")
+	if err == nil {
+		vr.Reach("name accepted")
+	} else {
+		vr.Reach("name rejected")
+	}
+}
